@@ -317,6 +317,23 @@ func (cs *connState) buildTLV(w *world, d caseDesc, rnd *rand.Rand) *request {
 			rq.Body = encodeItems(out)
 			rq.Variant = cor.kind + " followed by 1000 zero-length items of an unknown tag"
 		}
+	case "extra-item":
+		// the correct next message plus ONE more item: every tag the specification defines (0x00..0x13, also those this
+		// library never reads: flags, permissions, retry delay, fragments) and a few it does not, with values of 0..9, 16 and 255 bytes
+		ti, li := arg%len(extraTags), (arg/len(extraTags))%len(extraLens)
+		val := make([]byte, extraLens[li])
+		for k := range val {
+			val[k] = byte(0x10 + k)
+		}
+		out := append([]refctl.Item{}, items...)
+		extra := refctl.Item{Tag: extraTags[ti], Val: val}
+		if (arg/(len(extraTags)*len(extraLens)))%2 == 0 {
+			out = append(out, extra)
+		} else {
+			out = append([]refctl.Item{extra}, out...)
+		}
+		rq.Body = encodeItems(out)
+		rq.Variant = fmt.Sprintf("%s plus an item with tag 0x%02x and %d bytes", cor.kind, extra.Tag, len(val))
 	case "wrong-tags":
 		i := pick(len(items))
 		out := append([]refctl.Item{}, items...)
@@ -628,6 +645,9 @@ func trunc(s string, n int) string {
 }
 
 // ---------------------------------------------------------------- JSON endpoints
+
+var extraTags = []byte{0x00, 0x01, 0x02, 0x03, 0x04, 0x05, 0x07, 0x08, 0x09, 0x0a, 0x0b, 0x0c, 0x0d, 0x0e, 0x0f, 0x10, 0x11, 0x12, 0x13, 0x14, 0x7f, 0xfe}
+var extraLens = []int{0, 1, 2, 3, 4, 5, 7, 8, 9, 16, 255}
 
 var c12Values = []string{
 	"0", "-1", "0.5", "255", "256", "65536", "2147483648", "4294967296", "9007199254740992", "9223372036854775808",
